@@ -38,6 +38,7 @@ type Summary struct {
 	TrustedBase        []string       `json:"trusted_base"`
 	Assumptions        []string       `json:"assumptions"`
 	Search             string         `json:"search"`
+	Exhaustive         string         `json:"exhaustive,omitempty"`
 }
 
 // Ctx is the per-run context handed to a property harness.
